@@ -146,7 +146,7 @@ Definition vpost (m : mem) (v : iovs) (n : Z) (w : list byte) (ptr cnt : Z) (m' 
 Lemma efv_spec m v n w : inv m v -> 0 < n -> psep (i_el v) -> flat m (i_el v) = Ok w ->
   exists ret ptr cnt m' v', extract_front_view m v n = Ok (ret, ptr, cnt, m', v') /\
     inv m' v' /\ ext (lens m) (lens m') /\
-    ((ret = -1 /\ cnt = 0 /\ ptr = 0 /\ m' = m /\ v' = v) \/
+    ((ret = -1 /\ cnt = 0 /\ ptr = 0 /\ m' = m /\ v' = v /\ i_cap v <= i_nb v) \/
      (ret = Z.min n (len w) /\ ptr = region_base (len m) /\ (n <= len w -> vpost m v n w ptr cnt m' v'))).
 Proof.
   intros Hinv Hn Hp Hf. pose proof Hinv as [Hbm [Hwf [Hel [Hsum [Hnb [Hroom Hcnt]]]]]].
@@ -157,7 +157,7 @@ Proof.
   pose proof (len_nonneg (i_el v)) as Hc0. unfold do_malloc.
   destruct (INT_MAX <? len (i_el v) * 16) eqn:EH; [apply Z.ltb_lt in EH; unfold INT_MAX in *; lia|].
   destruct (i_cap v <=? i_nb v) eqn:EC.
-  { cbn [bind]. rewrite Z.eqb_refl. intros H. inversion H. left. auto. }
+  { apply Z.leb_le in EC. cbn [bind]. rewrite Z.eqb_refl. intros H. inversion H. subst. left. repeat split; auto. }
   apply Z.leb_gt in EC. cbn [bind].
   pose proof (len_nonneg m) as Hlm.
   destruct (region_base_bound (len m) ltac:(lia)) as [B1 B2].
